@@ -16,7 +16,7 @@ BOUNDS = {"quick": {"N": "2 complete, 3 under a path budget"}, "thorough": {"N":
 EXPECTED_EXCEPTIONS = ()
 FOCUS = ["ribana:trace_chains", "ribana:add_chain_suffix", "ribana:add_chain_prefix", "ribana:get_nn_dist"]
 OPTS = {"qtimeout": 10.0, "max_paths": 500, "budget_s": 170}
-OPTS_THOROUGH = {'max_paths': 30000, 'budget_s': 1800}
+OPTS_THOROUGH = {'max_paths': 30000, 'budget_s': 1200}
 
 
 def _false(env):
